@@ -137,6 +137,32 @@ OPS = [
       'allocations': {}}, None),
 ]
 
+BASE_OPS = list(OPS)
+
+# further bodies for operations already listed above: writes whose *meaning*
+# is a removal (clearing PUT/POST, empty replacement) are still governed by
+# the rule documented for their route, not by the delete rule
+OPS += [
+    ('PUT', '/allocations/{consumer_uuid}', '/allocations/' + C1,
+     {'allocations': {}, 'project_id': 'proj-a', 'user_id': 'user-a',
+      'consumer_generation': 1, 'consumer_type': 'INSTANCE'}, None),
+    ('PUT', '/allocations/{consumer_uuid}', '/allocations/' + gen.CONS[3],
+     {'allocations': {}, 'project_id': 'proj-a', 'user_id': 'user-a',
+      'consumer_generation': None, 'consumer_type': 'INSTANCE'}, None),
+    ('POST', '/allocations', '/allocations',
+     {C1: {'allocations': {}, 'project_id': 'proj-a', 'user_id': 'user-a',
+           'consumer_generation': 1, 'consumer_type': 'INSTANCE'}}, None),
+    ('PUT', '/resource_providers/{uuid}/inventories',
+     '/resource_providers/%s/inventories' % P2,
+     {'resource_provider_generation': 1, 'inventories': {}}, None),
+    ('PUT', '/resource_providers/{uuid}/traits',
+     '/resource_providers/%s/traits' % P1,
+     {'resource_provider_generation': 4, 'traits': []}, None),
+    ('PUT', '/resource_providers/{uuid}/aggregates',
+     '/resource_providers/%s/aggregates' % P1,
+     {'resource_provider_generation': 4, 'aggregates': []}, None),
+]
+
 # rule -> documented operations, transcribed from the policy reference
 RULES = {
     'placement:resource_providers:list': [('GET', '/resource_providers')],
@@ -298,7 +324,7 @@ def run_worker(ctx):
     vcells = []
     for ver in SWEEP_VERSIONS:
         vnum = c14.applied(ver)
-        for (m, route, path, body, missing) in OPS:
+        for (m, route, path, body, missing) in BASE_OPS:
             vbody = c14.plausible_body(route, m, vnum) \
                 if m in ('PUT', 'POST') else None
             if route == '/allocations/{consumer_uuid}' and m == 'PUT':
@@ -368,7 +394,7 @@ def run_worker(ctx):
                 svc.restore(snap)
                 r = send(svc, app, m, path, body, caller)
                 stats.evaluations += 1
-                stats.nontriv(stable_hash([rule, chk, m, route]))
+                stats.nontriv(stable_hash([rule, chk, m, route, path, body]))
                 ok = r.ok or r.status not in (401, 403)
                 try:
                     if expect_allowed and r.status in (401, 403):
@@ -456,7 +482,7 @@ def check_cell(ctx, svc, app, snap, before, inj, m, route, path, body, caller,
                          'route': route, 'caller': caller},
                         {'cell': cell, 'status': r.status, 'body': r.json})
     if caller == 'none':
-        stats.nontriv(stable_hash([m, route, caller, variant]))
+        stats.nontriv(stable_hash([m, route, path, body, caller, variant]))
         if r.status != 401:
             raise Violation({'clause': 'no-credentials-not-401',
                              'method': m, 'route': route},
@@ -477,7 +503,7 @@ def check_cell(ctx, svc, app, snap, before, inj, m, route, path, body, caller,
             stats.notes.append('fixture request not 2xx for authorised '
                                'caller: %s -> %d' % (cell, r.status))
         return
-    stats.nontriv(stable_hash([m, route, caller, variant]))
+    stats.nontriv(stable_hash([m, route, path, body, caller, variant]))
     stats.count('statements before refusal: %s' % (
         '0' if nstmt == 0 else '1-5' if nstmt <= 5 else '6+'))
     if len(stats.samples) < stats.MAX_SAMPLES:
